@@ -223,10 +223,11 @@ def build_tofile(eng):
         requires=["nonnull(file)", "self.nbytes >= 0", "implies(self._offset is not None, some(self._offset) >= 0)",
                   "implies(self._length is not None, some(self._length) >= 0)",
                   "io.g_written == 0", f"io.g_len == {LEN}", "io.g_src0 == ite(self._offset is None, 0, some(self._offset))"],
-        loops={1: LoopSpec(invariant=inv + ["copied == io.g_written", "0 <= copied and copied <= bytes_to_copy", "bytes_to_copy == io.g_len",
+        # loop contracts keyed by the loop headers (the fast path and the portable chunk loop)
+        loops={"while copied < bytes_to_copy": LoopSpec(invariant=inv + ["copied == io.g_written", "0 <= copied and copied <= bytes_to_copy", "bytes_to_copy == io.g_len",
                                             "source_offset == io.g_src0", "destination_offset == io.g_dst0"],
                            modifies=["IOGhost.g_written"]),
-               2: LoopSpec(invariant=inv + ["bytes_to_copy >= 0", "io.g_written + bytes_to_copy == io.g_len",
+               "while bytes_to_copy > 0": LoopSpec(invariant=inv + ["bytes_to_copy >= 0", "io.g_written + bytes_to_copy == io.g_len",
                                             "src.g_pos == io.g_src0 + io.g_written"],
                            modifies=["IOGhost.g_written", "SrcFile.g_pos"])},
         # exactly the tensor's bytes on a normal return; never more on any exit
